@@ -72,7 +72,7 @@ def witness_from_trace(trace):
 
 
 def write_replay(prop, job, res, ob, tag, tier):
-    d = os.path.join(VERIF, 'replays')
+    d = os.path.join(VERIF, 'replays') if not os.environ.get('VF_REPO') else os.path.join(WORK, 'replays')
     os.makedirs(d, exist_ok=True)
     path = os.path.join(d, '%s__%s__%s.json' % (prop, job.name, re.sub(r'\W+', '_', ob['name'] or 'ob')))
     rec = {'property': prop, 'job': job.name, 'group': job.group, 'root': job.root,
@@ -260,8 +260,9 @@ def check(prop, tier, seed):
         'assumptions': sorted(set(assumptions)),
         'wall_s': round(wall, 1), 'violations': len(violations),
     }
-    os.makedirs(os.path.join(VERIF, 'evidence'), exist_ok=True)
-    json.dump(ev, open(os.path.join(VERIF, 'evidence', '%s.json' % prop), 'w'), indent=1)
+    evdir = os.path.join(VERIF, 'evidence') if not os.environ.get('VF_REPO') else os.path.join(WORK, 'evidence')   # scratch-copy runs do not touch the committed evidence
+    os.makedirs(evdir, exist_ok=True)
+    json.dump(ev, open(os.path.join(evdir, '%s.json' % prop), 'w'), indent=1)
     print('%s: %d jobs, %d/%d obligations discharged, %d violations, %d known, %d undecided, %.0fs' % (
         prop, len(jobs), n_dis, n_ob, len(violations), len(known), len(undecided), wall))
     return rc
